@@ -24,7 +24,8 @@ Inductive ereq :=
            (o_panic : bool) (o_body : list Z) (o_logic : elogic)
 | EHttpScr (uri remote host : list Z) (split_ok : bool) (ips : list (list Z * option (list Z)))
            (o_panic : bool) (o_body : list Z) (o_logic : elogic)
-| EDump (entries : list (list Z * bool * bool * list Z * Z)).
+| EDump (entries : list (list Z * bool * bool * list Z * Z))
+| EGc (cutoff : Z).                                  (* one complete expiry pass of the store between two requests *)
 
 Record ecfg := {
   e_key : list Z; e_skew : Z; e_uspoof : bool; e_hspoof : bool; e_hdrname : list Z;
@@ -81,6 +82,7 @@ Definition step (c : ecfg) (x : est) (r : ereq) : est * list Z :=
   let st := x_st x in
   match r with
   | EClock ns => ({| x_st := st; x_clock := ns; x_seen := x_seen x |}, [])
+  | EGc T => ({| x_st := st_gc spec_if T st; x_clock := x_clock x; x_seen := x_seen x |}, [])
   | EUdp ip packet macs o_panic dg lg =>
     let mac := G10.mac_of macs in
     if o_panic then (x, [1]) else
